@@ -14,7 +14,8 @@ EXTRA_TARGETS = ["Extract/ExtractHasher.vo", "Extract/ExtractCreators.vo"]
 AREAS = ["hasher", "creators"]
 CREATOR_KINDS = ["v1", "v1-align"]
 # Appendix B "creators" classes that concern the v1 creator (shared roots / piece layers do not exist in a v1 metafile)
-CREATOR_CLASSES = ["single file", "flat", "nested", "full-path order != per-directory order", "empty directory present"]
+CREATOR_CLASSES = ["single file", "flat", "nested", "full-path order != per-directory order", "empty directory present"] + \
+    trees.NAME_CLASSES
 RULE = ("model tie: the extracted Coq model of Hasher (hasher_inputs) vs the real Hasher iterator on the same file-size "
         "tuples -- small scope (1..4 files, sizes 0..6, piece length 1..4; exhaustive in the thorough tier, sampled in quick) "
         "and generated real-granularity cases; unit correspondence of Model/Creators.v (create_v1 = MetaFile.__init__, "
@@ -32,7 +33,12 @@ RULE = ("model tie: the extracted Coq model of Hasher (hasher_inputs) vs the rea
         "public assemble() called AGAIN on the same object before write() with the tree unchanged, and assemble() again after one "
         "file grew / shrank / was added / was removed (judged against the tree on disk at that moment) -- and the command line with "
         "--prog 0|1|2 and --quiet; a third of the unit-correspondence cases are re-assembled too.  Names include runs of dots inside "
-        "a name (wait....bin, disc..2, ..hidden, a..).  A case is non-trivial when it is distinct and hits at least one boundary class.")
+        "a name (wait....bin, disc..2, ..hidden, a..), decomposed (NFD) Unicode names (cafe + U+0301, a directory A + U+030A next to a "
+        "sibling B: composed it would sort after B), names with the glob metacharacters * ? [ ] ('Album [FLAC]/cd[1]', 'a*b' next to "
+        "'aXb') and mixed-case siblings (README.txt next to data.bin) -- in the shared pools and as aimed groups (trees.add_aimed_names; "
+        "flavour 'names' of the unit correspondence); the payload itself is named in turn payload / 'Album [FLAC]' / a decomposed "
+        "name / 'pay*load?' / PayLoad.D: every name must be listed byte for byte as it is on disk, in raw string order.  "
+        "A case is non-trivial when it is distinct and hits at least one boundary class.")
 TRUSTED_BASE = [
     "Coq 8.16.1 kernel; theorems closed under the global context; SHA-1 is an arbitrary function H1 in every theorem",
     "hand-written model Model/Hasher.v tied to hasher.py by differential execution (extracted OCaml vs the real iterator)",
@@ -187,7 +193,8 @@ def e2e_case(ctx, i, tmp):
     single = list(ltree) == [()]
     # no symbolic links here: C01's quantifier excludes them (C08 and C12 cover payloads with links)
     tree = trees.resolve_links(ltree)       # the reader's view: plain bytes everywhere; ltree is what gets written
-    root = os.path.join(tmp, f"c{i}", "payload.bin" if single else "payload")
+    root = os.path.join(tmp, f"c{i}", ("payload.bin" if single else "payload") if i >= SCALE0 else trees.root_name(i, single))
+    cl |= trees.root_name_classes(os.path.basename(root))
     trees.write_tree(root, ltree)
     out = os.path.join(tmp, f"c{i}", "o.torrent")
     # route: every fourth case through the command line (--prog 0|1|2 and --quiet in turn); the others through the library with
